@@ -124,6 +124,12 @@ class NPShim(object):
     def asarray(self, x, dtype=None):
         if isinstance(x, SymArray) and dtype is None:
             return x
+        if isinstance(x, SymArray):
+            # NumPy returns the argument itself (no copy) when it already has the requested dtype
+            want = {'float': 'f', 'float64': 'f', 'complex': 'c', 'complex128': 'c', 'int': 'i', 'int64': 'i', 'bool': 'b'}.get(
+                getattr(dtype, '__name__', None) or getattr(dtype, 'name', None) or str(dtype))
+            if want is not None and want == x.kind:
+                return x
         return self.array(x, dtype=dtype)
 
     def arange(self, *a, **k):
